@@ -94,8 +94,15 @@ inductive RangeResult where
   | ok (start stop : Nat) (text : String)
 deriving Repr
 
-/-- `Typstyle::format_source_range`. -/
-def formatRange (cfg : Config) (wd : String → Nat) (src : String) (root : ENode) (a b : Nat) : RangeResult :=
+/-- Result of the conversion stage of range formatting: the covering node (annotated), its start
+offset, its length, the printed family and the indentation of the line the range starts on. -/
+inductive RangeDoc where
+  | refused
+  | rejected (why : String)
+  | ok (node : ANode) (start len : Nat) (d : Twin.Doc) (indent : Nat)
+
+/-- `Typstyle::format_source_range` up to the document. -/
+def formatRangeDoc (cfg : Config) (wd : String → Nat) (src : String) (root : ENode) (a b : Nat) : RangeDoc :=
   let env : Env := { cfg := cfg.toP, wd := wd }
   let text := src.toList
   let len := src.utf8ByteSize
@@ -113,8 +120,20 @@ def formatRange (cfg : Config) (wd : String → Nat) (src : String) (root : ENod
       else r.pattern ctx t
     match conv.run { limit := t.size } with
     | .error err => .rejected (toString (repr err))
-    | .ok (d, _) =>
-      let indent := countSpacesAfterLastNewline text s
-      .ok off (off + n.len) (Pretty.pretty cfg.maxWidth ((d.fam cfg.tab).nst indent))
+    | .ok (d, _) => .ok t off n.len d (countSpacesAfterLastNewline text s)
+
+/-- `Typstyle::format_source_range`. -/
+def formatRange (cfg : Config) (wd : String → Nat) (src : String) (root : ENode) (a b : Nat) : RangeResult :=
+  match formatRangeDoc cfg wd src root a b with
+  | .refused => .refused
+  | .rejected why => .rejected why
+  | .ok _ off len d indent => .ok off (off + len) (Pretty.pretty cfg.maxWidth ((d.fam cfg.tab).nst indent))
+
+/-- Stream certificates of the family printed for the covering node (C13 with C01/C06/C08/C10): it
+carries the code tokens, comments, prose, literals and verbatim text the *node* prescribes.
+(Tokens and literals are not compared with import reordering on.) -/
+def rangeCertified (reorder : Bool) (t : ANode) (d : Twin.Doc) : Bool :=
+  d.good && (reorder || d.toks == specToks t) && d.cmts == specCmts t && d.prose == specProse t
+    && (reorder || d.lits == specLit t) && d.verbs == specVerb t
 
 end Typstyle
